@@ -9,7 +9,7 @@ import sys
 import warnings
 
 import glom as G
-from glom import glom, T, S, Coalesce, Fill, Fold, Sum, Flatten, Iter, Match, Val, Spec, Check, M, Or, Invoke, GlomError
+from glom import glom, T, S, A, Vars, Pipe, Coalesce, Fill, Fold, Sum, Flatten, Iter, Match, Val, Spec, Check, M, Or, Invoke, GlomError
 from glom.grouping import Group
 import glom.core as core
 
@@ -54,6 +54,10 @@ SHARED_INVOKE = Invoke(sorted).specs(T['l'])
 SHARED_STAR = Invoke(lambda *a, **kw: (a, sorted(kw.items()))).star(args=T['l'], kwargs=T['d']).constants(9, z=1).specs(T['l'][0])
 SHARED_BIND = (S(k=T['a']), {'seen': S['k'], 'again': Coalesce(S['nope'], default='none')})
 
+# scope variables created by a Vars() without keyword defaults / with a base mapping only: each evaluation starts afresh
+SHARED_VARS = Pipe(S(v=Vars()), A.globals.t, Coalesce(S.v.seen, default='unset'), A.globals.r, S.globals.t, A.v.seen, S.globals.r)
+SHARED_VARS_BASE = Pipe(S(v=Vars({'n': 0})), A.globals.t, S.v.n, A.globals.r, S.globals.t, A.v.n, S.globals.r)
+
 POOL = [
     ('path-a.b-1', lambda: {'a': {'b': 1}}, 'a.b'),
     ('path-a.b-2', lambda: {'a': {'b': [2]}}, 'a.b'),
@@ -78,6 +82,9 @@ POOL = [
     ('shared-invoke-star-1', lambda: {'l': [3, 1], 'd': {'k': 1}}, SHARED_STAR),
     ('shared-invoke-star-2', lambda: {'l': [7], 'd': {}}, SHARED_STAR),
     ('shared-bind', lambda: {'a': 'bound'}, SHARED_BIND),
+    ('shared-vars-1', lambda: 'first-target', SHARED_VARS),
+    ('shared-vars-2', lambda: 'second-target', SHARED_VARS),
+    ('shared-vars-base', lambda: 'third-target', SHARED_VARS_BASE),
     ('user-type-get-A', lambda: UA(), 'x'),
     ('user-type-get-B', lambda: UB(), 'x'),
     ('user-type-get-C', lambda: UC(), 'x'),
